@@ -116,6 +116,15 @@ func c14SegMaps(form, segs int) c14MapsecT {
 }
 
 func c14RunStreams(emit c14EmitFn) {
+	// heap: effective sampling rate exactly 1 (heap/2, heap/3, heap_v2/1, heapz_v2/1) and 0/unknown (heap/1, heap_v2) with tiny
+	// blocks: raw values are the documented ones ("rate <= 1"); an unsampling applied there is far from 1 for 1-8 byte blocks
+	for _, nr := range [][2]string{{"heap", "2"}, {"heap", "3"}, {"heap_v2", "1"}, {"heapz_v2", "1"}, {"heap", "1"}, {"heap_v2", ""}} {
+		hd := c14HdocT{name: nr[0], rate: nr[1], h: [4]string{"9", "900", "20", "2000"}}
+		for i, cs := range [][4]string{{"1", "1", "2", "3"}, {"7", "14", "7", "14"}, {"3000", "24000", "5000", "40000"}, {"40000", "40000", "40000", "80000"}, {"2", "6", "0", "0"}} {
+			hd.items = append(hd.items, c14HitemT{c: cs[0], s: cs[1], ac: cs[2], as: cs[3], addrs: c14RunHexes(0x400801+uint64(i)*0x1000, 2)})
+		}
+		emit("heap-rate1", "doc", "heap", hd.term(), []byte(c14JoinLines(hd.lines(0))), nil, false, true, "heap:"+hd.name+"/"+hd.rate)
+	}
 	// binary CPU: handler frame shared by all but len/32 records, outliers carrying the handler address elsewhere
 	for kind := 0; kind < 4; kind++ {
 		for _, n := range []int{32, 64} {
